@@ -16,12 +16,12 @@ ASSUMPTIONS = ["urllib / requests send exactly the method, url, headers and body
 
 
 def run(project, rep):
-    N.n_r1_sinks(project, rep)
-    N.n_r2_dryrun(project, rep)
-    N.n_r3_profile_lookup(project, rep)
-    N.n_r4_post(project, rep)
-    N.n_r5_headers(project, rep)
-    N.n_r6_placeholder(project, rep)
-    N.n_r7_routing(project, rep)
-    N.n_r7c_service_urls(project, rep)
-    N.n_r8_cookies(project, rep)
+    rep.run(N.n_r1_sinks, project, rep)
+    rep.run(N.n_r2_dryrun, project, rep)
+    rep.run(N.n_r3_profile_lookup, project, rep)
+    rep.run(N.n_r4_post, project, rep)
+    rep.run(N.n_r5_headers, project, rep)
+    rep.run(N.n_r6_placeholder, project, rep)
+    rep.run(N.n_r7_routing, project, rep)
+    rep.run(N.n_r7c_service_urls, project, rep)
+    rep.run(N.n_r8_cookies, project, rep)
